@@ -18,3 +18,7 @@ func vcIsSuciOf(m nasType.MobileIdentity5GS, supi string, mncLen int) bool {
 	return len(m.Buffer) == ids.SUCILen(len(imsi), mncLen) && int(m.Len) == len(m.Buffer) &&
 		vc.Forall(0, len(m.Buffer), func(j int) bool { return m.Buffer[j] == ids.SUCIByte(imsi, mncLen, j) })
 }
+
+func vcSameOctets(a, b []byte) bool {
+	return len(a) == len(b) && vc.Forall(0, len(a), func(i int) bool { return a[i] == b[i] })
+}
